@@ -7,6 +7,8 @@ CONSTANTS
   InsertNewTagStoresChars = FALSE
   NonAtomicRead = FALSE
   NonAtomicQread = FALSE
+  ReverseViewCached = FALSE
+  AliasBoundToFirstObject = FALSE
   ShallowCopy = FALSE
   SrcSteps = 2
   Emit = FALSE
@@ -15,6 +17,7 @@ INVARIANT TypeOK
 INVARIANT Inverse
 INVARIANT Refines
 INVARIANT QueriesAgree
+INVARIANT AliasQueriesAgree
 INVARIANT SourceInverse
 INVARIANT SourceRefines
 INVARIANT AliasOK
